@@ -30,7 +30,8 @@ ASSUMPTIONS = ["floating point rounding is not modelled (model vs implementation
                "convergence of the Charnock iteration within 100 iterations is validated by execution over U in [0.1,80], not proved",
                "the stress function of the Janssen roughness (resolved + WAM tail + viscous stress) is not modelled: the 1e-4 residual is "
                "checked on the implementation (roughness() fed back into stress())",
-               "numba compiles balance/solvers.py faithfully"]
+               "numba compiles balance/solvers.py faithfully",
+               "the element-wise translator harness/translate_pointwise.py (Python AST -> Coq text over R, fail-closed) is trusted to map each accepted construct to its meaning: wavephysics/roughness.py (Charnock, Wu, drag) -> Generated/RoughnessSrc.v"]
 
 
 def par_tokens(alpha, visc):
